@@ -12,7 +12,9 @@ ID = "C12"
 LEVEL = "exploration"
 RULE = ("Hypothesis-drawn chain states (forked histories under short retarget periods, heads at retarget boundaries, fabricated "
         "deep states with the real period) x pools of 0-6 transactions admitted through the node's own add_transaction_to_pool "
-        "(fees 0 .. all-but-one) x clocks (assembly time from head-30 to head+10^4, found time >= assembly time). The REAL "
+        "(fees 0 .. all-but-one) x clocks (assembly time from head-30 to head+10^4, found time >= assembly time, the clock "
+        "ticking every 0/1/3/40 attempts) with, in 30% of the cases, a third peer whose connection is being torn down at the "
+        "instant of the broadcast. The REAL "
         "MinerWatcher.handle_request_scrypt_input_message / handle_scrypt_output_message run on an instance wired to a simulated "
         "node with two greeted peers and the real block store; the harness plays the miner process (summary hash per nonce) "
         "until a block is found. Oracle: the found block is reference-valid at the found-time clock and accepted by add_block; "
@@ -91,9 +93,15 @@ def execute(case):
             store.write_blocks_to_disk([b.to_sk_block(led.nodes[i].blk) for i in led.order[1:]])
         node = net.add("miner", "10.0.0.1", cs, 5, disk=disk_if)
         node.cm.started_at = -10 ** 9
-        peers = [simnet.Wire(net, node, host="10.0.3.%d" % (i + 2)) for i in range(2)]
+        peers = [simnet.Wire(net, node, host="10.0.3.%d" % (i + 2)) for i in range(3 if case.get("dead_peer") else 2)]
         for i, w in enumerate(peers):
             w.greet(nonce=900 + i)
+        dead = None
+        if case.get("dead_peer"):
+            # the networking thread is tearing this connection down at the instant the miner broadcasts: its socket is no
+            # longer registered, so queuing a message for it fails -- the other peers must still get the block
+            dead = peers.pop(1)
+            node.lp.selector.unregister(dead.node_sock)
         # pool through the node's own admission
         spendable = sorted((r, o) for r, o in head.utxo.items() if o[0] >= 2 and any(k.pub == o[1] for k in KEYS))
         fees = 0
@@ -137,7 +145,12 @@ def execute(case):
         marks = [len(w.received) for w in peers]
         found = None
         err = None
-        for nonce in range(case["nonce0"], case["nonce0"] + 60_000):
+        tick_every = case.get("tick_every", 0)
+        t_asm0 = t_asm
+        for n_try, nonce in enumerate(range(case["nonce0"], case["nonce0"] + 60_000)):
+            if tick_every and n_try and n_try % tick_every == 0:
+                t_asm += 1                                   # the clock moves on between attempts, as it does in reality
+                t_found = max(t_found, t_asm)
             simnet.CLOCK.now = t_asm
             with env.quiet():
                 mw.handle_request_scrypt_input_message(0, nonce & 0xFFFFFFFF)
@@ -230,6 +243,19 @@ def execute(case):
                 fail("adopt", "found-block-not-broadcast-exactly-once", "peer %d received %d unsolicited block messages carrying the found block (%s)" % (k, n, tag))
         if net.escaped:
             fail("escape", "exception-escaped-handler", net.escaped[0][1])
+        if case.get("next_request") and not fails:
+            # the miner goes on: the next candidate must be assembled on the found block with the mined transactions gone
+            try:
+                with env.quiet():
+                    mw.handle_request_scrypt_input_message(0, 12345)
+                mt2, (summary2, height2) = mw.send_queues[0].items[-1]
+                del mw.send_queues[0].items[:]
+                if summary2.previous_block_hash != bid or height2 != plain.height + 1:
+                    fail("next", "next-candidate-not-on-found-block", "after a find the next candidate is built on height %d, not on the found block (%s)" % (height2 - 1, tag))
+                if node.cm.transaction_pool:
+                    fail("next", "mined-transactions-still-pending", "after a find %d mined transaction(s) are still pending (%s)" % (len(node.cm.transaction_pool), tag))
+            except Exception as e:
+                fail("next", "next-candidate-raised:" + exc_sig(e), "assembling the next candidate after a find raised %r (%s)" % (e, tag))
         if case.get("second_find") and not fails and not deep:
             second_find(case, mw, node, peers, net, led, plain, t_found, d, fail, info)
         return fails, info
@@ -325,7 +351,8 @@ def run(shard, tier, seed):
         deepd = chainexec.gen_deep(rnd) if (deep and cfg[0] == R.REAL_PERIOD) else None
         case = chainexec.gen_case(rnd, cfg if deepd is None else chainexec.CFGS[3], nb, 0.0, ["C01"], deep=deepd, p_tx=0.6, p_fork=0.3)
         case.update(asm_off=asm_off, found_delay=found_delay, n_pool=n_pool, fee_sel=fee_sel, nonce0=rnd.randrange(1 << 32),
-                    second_find=rnd.random() < 0.5)
+                    second_find=rnd.random() < 0.5, tick_every=rnd.choice([0, 0, 1, 3, 40]), dead_peer=rnd.random() < 0.3,
+                    next_request=rnd.random() < 0.6)
         try:
             fails, info = execute(case)
         except env.HarnessError as e:
